@@ -8,7 +8,8 @@ open Flute.Session
 
 /-- what a non-carousel source still has to emit -/
 def remainingOf (x : Src) : List Sym :=
-  x.rest ++ (List.replicate (x.transfers - 1 - x.t) x.tr).flatten ++ (if x.t < x.transfers then x.trLast else [])
+  x.rest ++ (List.replicate (x.transfers - 1 - x.t) x.tr).flatten ++
+    (if x.t < x.transfers then x.trLast else if x.transfers = 0 ∧ x.t = 0 then x.tr else [])
 
 theorem pull_remaining (x x' : Src) (q : Sym) (hc : x.carousel = false) (h : x.pull = some (q, x')) :
     remainingOf x = q :: remainingOf x' ∧ x'.carousel = false ∧ x'.slot = x.slot := by
@@ -45,8 +46,22 @@ theorem pull_remaining (x x' : Src) (q : Sym) (hc : x.carousel = false) (h : x.p
           have h3 : x.t < x.transfers := by omega
           have h4 : ¬ (x.t + 1 < x.transfers) := by omega
           have e2 : x.transfers - 1 - (x.t + 1) = 0 := by omega
-          simp [remainingOf, hr, e, e2, htr, h3, h4, hc]
-      · simp [h2] at h
+          have h5 : ¬ (x.t + 1 < x.transfers) := by omega
+          have h6 : ¬ (x.transfers = 0 ∧ x.t + 1 = 0) := by omega
+          have h7 : x.transfers ≠ 0 := by omega
+          simp [remainingOf, hr, e, e2, htr, h3, h4, h5, h6, h7, hc]
+      · simp only [h2, ↓reduceIte] at h
+        by_cases h0 : x.transfers = 0 ∧ x.t = 0
+        · simp only [h0, and_self, ↓reduceIte] at h
+          cases htr : x.tr with
+          | nil => simp [htr] at h
+          | cons a r =>
+            simp only [htr, Option.some.injEq, Prod.mk.injEq] at h
+            obtain ⟨rfl, rfl⟩ := h
+            have ht0 : x.transfers = 0 := h0.1
+            have htt : x.t = 0 := h0.2
+            simp [remainingOf, hr, htr, ht0, htt, hc]
+        · simp [h0] at h
 
 def findSrc (srcs : List Src) (k : Slot) : Option Src := srcs.find? (fun x => x.slot == k)
 
